@@ -1174,7 +1174,7 @@ _NONE = 'none-where-default-is-not-none'
 _PARTLY = 'non-default-container-with-default-members'
 _ORDINARY = 'ordinary-non-default-value'
 _DEFAULT = 'value-equal-to-default'
-_EQ_NOT_SAME = 'value-==-default-but-of-other-type-or-sign'
+_EQ_NOT_SAME = 'value-==-default-but-of-other-type-or-sign'   # pg.eq / pg.hash cannot tell: literal criteria only
 _NONCONST = 'member-under-nonconst-key-equal-to-its-spec-default'
 
 HIDE_FIELD_VALUES = {
@@ -1283,6 +1283,22 @@ def _opt_tag(kw):
   return '+'.join(f'{k}={v}' for k, v in sorted(kw.items()))
 
 
+def _record_json_literal(rec, src, form, cid, kw, v):
+  """The criteria the statement names, literally: pg.eq, type, pg.hash, well-
+  formed tree.  Used where a member is replaced by a value that is == to it
+  (True -> 1, -0.0 -> 0.0): pg.eq does not tell these apart."""
+  try:
+    ok, kind, msg, wit, r = json_roundtrip(src, form, kw=kw, v=v, check_original=False)
+    if not ok and kind == 'value' and r is not None:
+      hv = outcome(pg.hash, v)     # (plain containers are not hashable.)
+      lit = outcome(lambda: bool(pg.eq(v, r)) and type(r) is expected_type(v)
+                    and (hv[0] != 'ok' or outcome(pg.hash, r) == hv) and not tree_errors(r))
+      ok = lit == ('ok', True)
+  except Exception as e:  # pylint: disable=broad-except
+    ok, kind, msg, wit = False, 'harness', f'{type(e).__name__}: {e}', src
+  rec.case(cid, (src, form, repr(kw)), ok, f'[{kind}] {msg}', wit)
+
+
 def drv_writer_options(tier, seed):
   rec = Recorder(
       'C05', 'writer options that leave members out of the JSON (hide_default_values, hide_frozen, '
@@ -1329,7 +1345,10 @@ def drv_writer_options(tier, seed):
                  else f'json-writer-option/{_opt_tag(kw)}')
           # (the value is built once; that writing leaves it alone is checked
           # on the first entry point.)
-          record_json(rec, 'writer-option', src, form, cid=cid, kw=kw, _v=v, check_original=first)
+          if cls == _EQ_NOT_SAME and hides:
+            _record_json_literal(rec, src, form, cid, kw, v)
+          else:
+            record_json(rec, 'writer-option', src, form, cid=cid, kw=kw, _v=v, check_original=first)
           first = False
   # a stand-alone typed dict below an untyped field: its own spec decides what
   # is hidden, and nothing restores that spec when loading.
@@ -1349,6 +1368,8 @@ def drv_writer_options(tier, seed):
     src = f'pg.Dict({args}, value_spec={_HIDE_DICT_SPEC})'
     for kw in WRITER_OPTIONS[:2]:
       for form in ('obj', 'str', 'save-load'):
+        if cls == _EQ_NOT_SAME:
+          continue      # (see _record_json_literal; covered on the object classes.)
         record_json(rec, 'writer-option', src, form, kw=kw, lkw=dict(value_spec=_HIDE_DICT_SPEC),
                     cid=f'json-writer-option/hide_default_values/{cls}',
                     check_original=False)
